@@ -154,6 +154,24 @@ def threaded_run(chk, prog, cfg, fn):
     w = core.must_pass(run, recvs, connects, through_nodes=stores)
     chk.ob("R2.wake_up", fn, "store(true) precedes the wake-up connect", w is None,
            "the wake-up connection can be accepted (and dispatched) before the flag is set; the loop then blocks in accept again", path=w, cfg=cfg)
+    # between the signal and the join nothing waits in a loop: the wake-up is one best-effort connect (the accept thread may already have seen
+    # the flag through a real client and closed the listener, after which a connect that is retried until it succeeds never does)
+    reg = run.reachable([s_ for r_ in recvs for s_ in run.succs(r_)], removed_nodes=set(joins))
+    reg = {n_ for n_ in reg if any(j_ in run.reachable([n_]) for j_ in joins) and not run.blocks[n_].get("cleanup")}
+    cyc = sorted(n_ for n_ in reg if n_ in run.reachable(run.succs(n_), removed_nodes=set(joins)))
+    waits = [n_ for n_ in cyc if run.term(n_) and run.term(n_)["k"] == "call" and core.call_matches(run.term(n_), r"TcpStream::connect(_timeout)?$|thread::sleep$|park(_timeout)?$|mpsc::Receiver::<T>::recv")]
+    chk.ob("R2.wake_up_once", fn, "signal -> join: no connect / sleep / wait sits in a loop", not waits,
+           "the wake-up (or a wait) is repeated in a loop between the signal and the join: once the accept thread has closed the listener the loop's exit "
+           "condition can never hold and run() does not return", where=run.where(waits[0]) if waits else "", cfg=cfg)
+    roots_ = {run.term(n_).get("resolved") for n_ in reg if run.term(n_) and run.term(n_)["k"] == "call" and run.term(n_).get("resolved")}
+    for pth_ in sorted(prog.reach_bodies({r_ for r_ in roots_ if r_ in prog.bodies and r_.startswith("humphrey")})):
+        hb_ = prog.bodies[pth_]
+        if hb_.path.startswith(lp.path) or not pth_.startswith("humphrey"):
+            continue
+        for blk_, t_ in hb_.calls_to(r"TcpStream::connect(_timeout)?$|thread::sleep$"):
+            inloop = blk_ in hb_.reachable(hb_.succs(blk_))
+            chk.ob("R2.wake_up_once", pth_, f"{core.short(t_['callee'])} on the shutdown path is not retried in a loop", not inloop,
+                   "a helper called between the signal and the join connects / sleeps in a loop: run() may never return", where=hb_.where(blk_), cfg=cfg)
     # run returns only after join
     oks = core.ok_return_blocks(run, "Ok")
     spawns = [blk for blk, t in run.calls_to(r"^std::thread::spawn$")]
@@ -386,6 +404,12 @@ def run(chk):
     c08.join_rules(chk, a, "R5.pool_drop")
     # requests accepted before the signal sit in the pool's queue in front of the Shutdown message: every queued task is still run
     c08.isolation_rules(chk, a)
+    # after a handler panic the recovery thread joins `threads[id]` under the pool's lock; with ids that are not the vector's indices it joins a
+    # live worker and keeps the lock, and the pool's Drop — on the accept thread that run() joins — waits for that lock for ever
+    from . import shared as _sh
+    _rf = _sh.RuleFilter(chk, {"R4.ids_are_indices": "R5.ids_are_indices"})
+    c08.ids_are_indices(_rf, a)
+    chk.floor("worker-id obligations borrowed from C08", _rf.forwarded, 1)
     d = chk.use(core.load("D", fresh=(chk.tier == "thorough")))
     threaded_run(chk, d, "D", "humphrey::app::App::<State>::run_tls")
     b = chk.use(core.load("B", fresh=(chk.tier == "thorough")))
